@@ -42,7 +42,7 @@ def ring_event(cid, closed, segs, base):
         ref = (sum(p[0] for p in open_ring) / len(open_ring), sum(p[1] for p in open_ring) / len(open_ring))
         e["mu"] = [[geo.mu(p[0]), geo.mu(p[1])] for p in open_ring]
         e["g"] = geo.grid(open_ring, ref)
-        e["hx"] = [geo.hx(p) for p in open_ring] if len(open_ring) <= 90 else []
+        e["hx"] = [geo.hx(p) for p in open_ring] if len(open_ring) <= 330 else []
         e["ok"] = True
         ring.append((0.0, 0.0))          # the caller owns the list: scribble on it
         ring.reverse()
@@ -90,7 +90,7 @@ def run(v):
     for r in range(0, 30):
         for k in range(3 if quick else 12):
             c = {"r": r, "f": rng.randrange(p["NF"]), "s": rng.randrange(p["NS"]) if r >= 1 else 0, "d": [rng.randrange(4) for _ in range(max(0, r - 1))]}
-            plan.append((cells.real_id(c), [(cl, s) for cl in CLOSED for s in SEGS]))
+            plan.append((cells.real_id(c), [(cl, s) for cl in CLOSED for s in SEGS] + [(rng.choice(CLOSED), rng.choice((4, 5, 6, 9, 10, 13, 14, 15, 19, 24, 31, 32)))]))
     # cells crossing the antimeridian or within reach of a pole / frame point at several levels
     found = set()
     levels = (4, 6, 9, 15, 22, 29) if quick else (2, 4, 5, 6, 7, 9, 12, 15, 18, 22, 26, 28, 29)
@@ -101,7 +101,10 @@ def run(v):
             except Exception:
                 pass
     for cid in sorted(found):
-        plan.append((cid, rng.sample(CORE8, 3) + [(rng.choice(CLOSED), rng.choice((2, 3, 7)))]))
+        extra = [(rng.choice(CLOSED), rng.choice((2, 3, 7)))]
+        if ser.get_resolution(cid) >= 22:
+            extra.append((rng.choice(CLOSED), rng.choice((32, 64, 5, 6, 10, 13))))       # any integer >= 1 is allowed
+        plan.append((cid, rng.sample(CORE8, 3) + extra))
     n_cells = len(plan)
     for cid, combos in plan:
         base = base_corners(cid)
